@@ -14,7 +14,9 @@
     * fixes/C17_static_min_cond.diff:   compiled `min_cond` uses `ret_ls["iteration"] <= 2` (number of trials),
       matching the eager `naive_ls_it < 2` (index of the successful trial)
 
-  Not modelled: NaN handling (`isnan` raises), `time_threshold`, logging, the `nfev/njev/nhev` counters, and the
+  NaN: `nan : V → Bool` tells where the objective evaluates to NaN: such a trial never passes `new_energy <= energy`
+  (both variants), a NaN start raises; the `isnan` checks after an accepted step are unreachable (an accepted energy is
+  not NaN) and therefore not transcribed. Not modelled: `time_threshold`, logging, the `nfev/njev/nhev` counters, and the
   `isfinite` checks. The CG stopping parameters derived from the energy history (`cg_absdelta`) and the gradient
   magnitude (`cg_resnorm`) are modelled (`eagerCgArgs` / `staticCgArgs`, `cgCfgOf`).
 -/
@@ -39,6 +41,7 @@ structure CgArgs (K : Type) where
 
 inductive Err where
   | cgFailed
+  | energyNaN
 deriving DecidableEq, Repr
 
 /-- result of the successive-halving line search -/
@@ -86,24 +89,24 @@ def resetDir (ip : V → V → K) (hessp : V → V → V) (pos g : V) : V :=
   (ip g g / absK (ip g (hessp pos g))) • g
 
 /-- the `for naive_ls_it in range(9)` loop of `_newton_cg`; `fuel` = trials left, `ls` = naive_ls_it -/
-def lsEager (f : V → K × V) (hessp : V → V → V) (ip : V → V → K) (pos : V) (energy : K) (g : V) :
+def lsEager (f : V → K × V) (nan : V → Bool) (hessp : V → V → V) (ip : V → V → K) (pos : V) (energy : K) (g : V) :
     Nat → Nat → K → V → Bool → LsRes K V
   | 0, ls, _, dd, reset =>                 -- `else:` of the for loop: no trial accepted
     { found := false, newPos := pos, newEnergy := energy, newG := g, dd := dd, gs := 0, trials := ls, reset := reset }
   | fuel + 1, ls, gs, dd, reset =>
     let newPos := pos - gs • dd
     let fe := f newPos
-    if fe.1 ≤ energy then
+    if nan newPos = false ∧ fe.1 ≤ energy then        -- `new_energy <= energy` is False for NaN
       { found := true, newPos := newPos, newEnergy := fe.1, newG := fe.2, dd := dd, gs := gs, trials := ls + 1,
         reset := reset }
     else
       let gs' := gs / two
-      if ls = 5 then lsEager f hessp ip pos energy g fuel (ls + 1) 1 (resetDir ip hessp pos g) true
-      else lsEager f hessp ip pos energy g fuel (ls + 1) gs' dd reset
+      if ls = 5 then lsEager f nan hessp ip pos energy g fuel (ls + 1) 1 (resetDir ip hessp pos g) true
+      else lsEager f nan hessp ip pos energy g fuel (ls + 1) gs' dd reset
 
-def lineSearchEager (f : V → K × V) (hessp : V → V → V) (ip : V → V → K) (pos : V) (energy : K) (g natg : V) :
+def lineSearchEager (f : V → K × V) (nan : V → Bool) (hessp : V → V → V) (ip : V → V → K) (pos : V) (energy : K) (g natg : V) :
     LsRes K V :=
-  lsEager f hessp ip pos energy g 9 0 1 natg false
+  lsEager f nan hessp ip pos energy g 9 0 1 natg false
 
 inductive StepOut (K V : Type) where
   | stop (r : Except Err (NRes K V))
@@ -121,12 +124,12 @@ def eagerCgArgs (c : Cfg K) (cgnorm : V → K) (s : NSt K V) : CgArgs K :=
     mag := cgnorm s.g }
 
 /-- body of the outer `for i in range(1, maxiter+1)` loop of `_newton_cg` -/
-def ncgEagerStep (c : Cfg K) (f : V → K × V) (hessp : V → V → V) (ip : V → V → K) (gradnorm : V → K)
+def ncgEagerStep (c : Cfg K) (f : V → K × V) (nan : V → Bool) (hessp : V → V → V) (ip : V → V → K) (gradnorm : V → K)
     (cgnorm : V → K) (cg : CgArgs K → V → V → V × Int) (i : Nat) (s : NSt K V) : StepOut K V :=
   let cgr := cg (eagerCgArgs c cgnorm s) s.pos s.g
   if cgr.2 < 0 then .stop (.error .cgFailed)            -- raise ValueError("conjugate gradient failed")
   else
-    let ls := lineSearchEager f hessp ip s.pos s.energy s.g cgr.1
+    let ls := lineSearchEager f nan hessp ip s.pos s.energy s.g cgr.1
     if ls.found = false then
       .stop (.ok ⟨s.pos, -1, s.energy, s.g, i⟩)         -- "Energy would increase; aborting": status = -1; break
     else
@@ -141,19 +144,20 @@ def ncgEagerStep (c : Cfg K) (f : V → K × V) (hessp : V → V → V) (ip : V 
       else .next ⟨ls.newPos, ls.newEnergy, ls.newG, some s.energy⟩       -- `old_fval = energy`
 
 /-- the outer loop; falling out of it is the `else:` clause `status = i` -/
-def ncgEagerLoop (c : Cfg K) (f : V → K × V) (hessp : V → V → V) (ip : V → V → K) (gradnorm : V → K)
+def ncgEagerLoop (c : Cfg K) (f : V → K × V) (nan : V → Bool) (hessp : V → V → V) (ip : V → V → K) (gradnorm : V → K)
     (cgnorm : V → K) (cg : CgArgs K → V → V → V × Int) : Nat → Nat → NSt K V → Except Err (NRes K V)
   | 0, i, s => .ok ⟨s.pos, ((i - 1 : Nat) : Int), s.energy, s.g, i - 1⟩
   | fuel + 1, i, s =>
-    match ncgEagerStep c f hessp ip gradnorm cgnorm cg i s with
+    match ncgEagerStep c f nan hessp ip gradnorm cgnorm cg i s with
     | .stop r => r
-    | .next s' => ncgEagerLoop c f hessp ip gradnorm cgnorm cg fuel (i + 1) s'
+    | .next s' => ncgEagerLoop c f nan hessp ip gradnorm cgnorm cg fuel (i + 1) s'
 
 /-- `_newton_cg` -/
-def ncgEager (c : Cfg K) (f : V → K × V) (hessp : V → V → V) (ip : V → V → K) (gradnorm : V → K)
+def ncgEager (c : Cfg K) (f : V → K × V) (nan : V → Bool) (hessp : V → V → V) (ip : V → V → K) (gradnorm : V → K)
     (cgnorm : V → K) (cg : CgArgs K → V → V → V × Int) (x0 : V) : Except Err (NRes K V) :=
   let fe := f x0
-  ncgEagerLoop c f hessp ip gradnorm cgnorm cg c.maxiter 1 ⟨x0, fe.1, fe.2, c.oldFval⟩
+  if nan x0 = true then .error .energyNaN                   -- `if jnp.isnan(energy): raise ValueError("energy is Nan")`
+  else ncgEagerLoop c f nan hessp ip gradnorm cgnorm cg c.maxiter 1 ⟨x0, fe.1, fe.2, c.oldFval⟩
 
 /-! ### compiled variant -/
 
@@ -168,11 +172,11 @@ structure LsSt (K V : Type) where
   reset : Bool
 
 /-- `line_search_single_step` -/
-def lsStaticStep (f : V → K × V) (hessp : V → V → V) (ip : V → V → K) (pos : V) (startE : K) (g : V)
+def lsStaticStep (f : V → K × V) (nan : V → Bool) (hessp : V → V → V) (ip : V → V → K) (pos : V) (startE : K) (g : V)
     (v : LsSt K V) : LsSt K V :=
   let newPos := pos - v.gs • v.dd
   let fe := f newPos
-  let status1 : Int := if fe.1 ≤ startE then 0 else v.status
+  let status1 : Int := if nan newPos = false ∧ fe.1 ≤ startE then 0 else v.status
   let gs1 : K := if status1 < -1 then v.gs / two else v.gs
   let doReset : Bool := decide (v.it = 5) && decide (status1 < -1)
   let reset := if doReset then true else v.reset
@@ -183,17 +187,17 @@ def lsStaticStep (f : V → K × V) (hessp : V → V → V) (ip : V → V → K)
   { status := status2, it := v.it + 1, newPos := newPos, newEnergy := fe.1, newG := fe.2, dd := dd, gs := gs2,
     reset := reset }
 
-def lsStaticLoop (f : V → K × V) (hessp : V → V → V) (ip : V → V → K) (pos : V) (startE : K) (g : V) :
+def lsStaticLoop (f : V → K × V) (nan : V → Bool) (hessp : V → V → V) (ip : V → V → K) (pos : V) (startE : K) (g : V) :
     Nat → LsSt K V → LsSt K V
   | 0, v => v
   | fuel + 1, v =>
-    if v.status < -1 then lsStaticLoop f hessp ip pos startE g fuel (lsStaticStep f hessp ip pos startE g v) else v
+    if v.status < -1 then lsStaticLoop f nan hessp ip pos startE g fuel (lsStaticStep f nan hessp ip pos startE g v) else v
 
 /-- `_line_search_successive_halving` (`new_energy` starts as `inf`; never observed because the loop runs at least
     once — the model puts the start energy there) -/
-def lineSearchStatic (f : V → K × V) (hessp : V → V → V) (ip : V → V → K) (pos : V) (energy : K) (g natg : V) :
+def lineSearchStatic (f : V → K × V) (nan : V → Bool) (hessp : V → V → V) (ip : V → V → K) (pos : V) (energy : K) (g natg : V) :
     LsSt K V :=
-  lsStaticLoop f hessp ip pos energy g 9
+  lsStaticLoop f nan hessp ip pos energy g 9
     { status := -2, it := 0, newPos := pos, newEnergy := energy, newG := g, dd := natg, gs := 1, reset := false }
 
 structure SSt (K V : Type) where
@@ -214,13 +218,13 @@ def staticCgArgs (c : Cfg K) (cgnorm : V → K) (v : SSt K V) : CgArgs K :=
     mag := cgnorm v.g }
 
 /-- `single_newton_cg_step`; `none` = `conditional_raise(info < 0, ValueError)` -/
-def ncgStaticStep (c : Cfg K) (f : V → K × V) (hessp : V → V → V) (ip : V → V → K) (gradnorm : V → K)
+def ncgStaticStep (c : Cfg K) (f : V → K × V) (nan : V → Bool) (hessp : V → V → V) (ip : V → V → K) (gradnorm : V → K)
     (cgnorm : V → K) (cg : CgArgs K → V → V → V × Int) (v : SSt K V) : Option (SSt K V) :=
   let i := v.it + 1
   let cgr := cg (staticCgArgs c cgnorm v) v.pos v.g
   if cgr.2 < 0 then none
   else
-    let ls := lineSearchStatic f hessp ip v.pos v.energy v.g cgr.1
+    let ls := lineSearchStatic f nan hessp ip v.pos v.energy v.g cgr.1
     let status1 : Int := if ls.status ≠ 0 then -1 else v.status
     let oldEnergy := v.energy        -- `old_energy = where(status < -1, energy, old_energy)`, used below only if status < -1
     let energy := if status1 < -1 then ls.newEnergy else v.energy
@@ -239,23 +243,24 @@ def ncgStaticStep (c : Cfg K) (f : V → K × V) (hessp : V → V → V) (ip : V
     let oldE := if status1 < -1 then some v.energy else v.oldE     -- `old_energy = where(status < -1, energy, old_energy)`
     some { status := status4, it := i, pos := pos, energy := energy, g := g, oldE := oldE }
 
-def ncgStaticLoop (c : Cfg K) (f : V → K × V) (hessp : V → V → V) (ip : V → V → K) (gradnorm : V → K)
+def ncgStaticLoop (c : Cfg K) (f : V → K × V) (nan : V → Bool) (hessp : V → V → V) (ip : V → V → K) (gradnorm : V → K)
     (cgnorm : V → K) (cg : CgArgs K → V → V → V × Int) : Nat → SSt K V → Option (SSt K V)
   | 0, v => some v
   | fuel + 1, v =>
     if v.status < -1 then
-      match ncgStaticStep c f hessp ip gradnorm cgnorm cg v with
+      match ncgStaticStep c f nan hessp ip gradnorm cgnorm cg v with
       | none => none
-      | some v' => ncgStaticLoop c f hessp ip gradnorm cgnorm cg fuel v'
+      | some v' => ncgStaticLoop c f nan hessp ip gradnorm cgnorm cg fuel v'
     else some v
 
 /-- `_static_newton_cg` (`none` = ValueError raised through the host callback) -/
-def ncgStatic (c : Cfg K) (f : V → K × V) (hessp : V → V → V) (ip : V → V → K) (gradnorm : V → K)
+def ncgStatic (c : Cfg K) (f : V → K × V) (nan : V → Bool) (hessp : V → V → V) (ip : V → V → K) (gradnorm : V → K)
     (cgnorm : V → K) (cg : CgArgs K → V → V → V × Int) (x0 : V) : Option (NRes K V) :=
   let fe := f x0
   let v0 : SSt K V := { status := if c.maxiter = 0 then 0 else -2, it := 0, pos := x0, energy := fe.1, g := fe.2,
                         oldE := c.oldFval }
-  (ncgStaticLoop c f hessp ip gradnorm cgnorm cg c.maxiter v0).map fun v => ⟨v.pos, v.status, v.energy, v.g, v.it⟩
+  if nan x0 = true then none                                 -- `conditional_raise(jnp.isnan(energy), ValueError(...))`
+  else (ncgStaticLoop c f nan hessp ip gradnorm cgnorm cg c.maxiter v0).map fun v => ⟨v.pos, v.status, v.energy, v.g, v.it⟩
 
 /-- the configuration of the inner CG call: `{**default_kwargs, **cg_kwargs}` — `base` carries what `cg_kwargs` (and the
     CG defaults) fix; `absdelta` comes from the minimiser; `resnorm = min(0.5, sqrt(mag_g)) * mag_g` unless `cg_kwargs`
